@@ -55,6 +55,10 @@ class Harness:
         self.schema = schema
         self.sync_only = sync_only
         self.mode = {}             # label -> 'sync' | 'async' for every resolver call
+        self.p_task = 0.0          # share of the awaitable resolver results handed over as an already running task
+        self.calls = 0
+        self.abort_at = None       # the n-th resolver invocation triggers the abort signal itself, synchronously
+        self.abort_fn = None
 
     def _p(self, *key):
         return (h(self.seed, 'mode', *key) % 10000) / 10000.0
@@ -64,6 +68,9 @@ class Harness:
         path = info.path.as_list()
         label = json.dumps(path)
         self.log.append(('invoke', tuple(path)))
+        self.calls += 1
+        if self.abort_at is not None and self.calls == self.abort_at and self.abort_fn is not None:
+            self.abort_fn()
 
         def compute():
             v = self.value_fn(path, info.parent_type.name, info.field_name, args, info.return_type)
@@ -76,6 +83,11 @@ class Harness:
                 self.log.append(('complete', tuple(path)))
             return self.wrap_list(v, label, path)
         self.mode[label] = 'async'
+        if self.p_task and self._p('task', label) < self.p_task:
+            # work that is already running when it is handed over (a data loader's task, loop.create_task(fetch()))
+            import asyncio
+            self.mode[label] = 'task'
+            return asyncio.ensure_future(self._gated(label, path, compute))
         return self._gated(label, path, compute)
 
     async def _gated(self, label, path, compute):
